@@ -350,9 +350,9 @@ def lean_obligations(pid, leanchecker=False, extra=()):
     out = r.stdout
     # parse "'name' depends on axioms: [a, b]" / "'name' does not depend on any axioms"
     found = {}
-    for m in re.finditer(r"'([^']+)' depends on axioms: \[([^\]]*)\]", out, re.S):
+    for m in re.finditer(r"'(\S+)' depends on axioms: \[([^\]]*)\]", out, re.S):
         found[m.group(1)] = [a.strip() for a in m.group(2).replace("\n", " ").split(",") if a.strip()]
-    for m in re.finditer(r"'([^']+)' does not depend on any axioms", out):
+    for m in re.finditer(r"'(\S+)' does not depend on any axioms", out):
         found[m.group(1)] = []
     for n in names:
         ax = found.get(n)
